@@ -23,7 +23,10 @@ use crate::{
         },
         tls::TlsServerConfig,
     },
-    context::{make_buffered_stream, Context, ContextCallback, ContextRef, ContextRefOps, Feature},
+    context::{
+        make_buffered_stream, Context, ContextCallback, ContextRef, ContextRefOps, Feature,
+        IOBufStream,
+    },
     listeners::Listener,
     GlobalState,
 };
@@ -133,7 +136,30 @@ impl SocksListener {
             .contexts
             .create_context(self.name.to_owned(), source)
             .await;
+        // from here on the connection has a record: a failed handshake must end it as an error
+        if let Err(e) = self
+            .clone()
+            .handshake_request(ctx.clone(), socket, local_addr, source, state, queue)
+            .await
+        {
+            warn!(
+                "{}: handshake error: {}: cause: {:?}",
+                self.name, e, e.cause
+            );
+            ctx.on_error(e).await;
+        }
+        Ok(())
+    }
 
+    async fn handshake_request(
+        self: Arc<Self>,
+        ctx: ContextRef,
+        mut socket: IOBufStream,
+        local_addr: SocketAddr,
+        source: SocketAddr,
+        state: Arc<GlobalState>,
+        queue: Sender<ContextRef>,
+    ) -> Result<(), Error> {
         let auth_server = PasswordAuth {
             required: self.auth.required,
         };
